@@ -415,6 +415,6 @@ def rule_counter_reset_and_context(ctx: Ctx) -> None:
 
 
 def run(ctx: Ctx) -> None:
-    rule_sources(ctx)
-    rule_set_iteration(ctx)
-    rule_counter_reset_and_context(ctx)
+    ctx.guarded(rule_sources)
+    ctx.guarded(rule_set_iteration)
+    ctx.guarded(rule_counter_reset_and_context)
